@@ -291,6 +291,32 @@ func verifyFunction(u *Universe, fi *FuncInfo, c *Contract) (obls []*Obligation,
 			st.vars[rv] = u.zero(u.sortOf(rv.Type()))
 		}
 	}
+	// package-level struct variables are allocated, non-nil and pairwise distinct objects; package-level
+	// pointers point to allocated objects
+	{
+		alloc := x.getSt(st, "alloc", arraySort(SRef, SBool))
+		var structRefs []*Term
+		for _, short := range sortedKeys(u.Pkgs) {
+			scope := u.Pkgs[short].Types.Scope()
+			for _, name := range scope.Names() {
+				v, ok := scope.Lookup(name).(*types.Var)
+				if !ok {
+					continue
+				}
+				if x.isHeapStructType(v.Type()) {
+					r := V(u.globalVar(v), SRef)
+					structRefs = append(structRefs, r)
+					st.assume(Select(alloc, r))
+				} else if u.sortOf(v.Type()) == SRef && u.isConstGlobal(v) {
+					r := V(u.globalVar(v), SRef)
+					st.assume(Or(Eq(r, V("null", SRef)), Select(alloc, r)))
+				}
+			}
+		}
+		if len(structRefs) > 0 {
+			st.assume(mk("distinct", SBool, append([]*Term{V("null", SRef)}, structRefs...)...))
+		}
+	}
 	// snapshot entry state for old(): take after param binding
 	entry := st.clone()
 	// requires
